@@ -2119,7 +2119,7 @@ struct PlanDataT<
 	Bounds tasksBounds;
 	TasksBits tasksSuccesses;
 	TasksBits tasksFailures;
-	bool planExists;
+	bool planExists = false;
 	TaskStatus headStatus;
 	TaskStatus subStatus;
 
@@ -2168,7 +2168,7 @@ struct PlanDataT<
 	Bounds tasksBounds;
 	TasksBits tasksSuccesses;
 	TasksBits tasksFailures;
-	bool planExists;
+	bool planExists = false;
 	TaskStatus headStatus;
 	TaskStatus subStatus;
 
